@@ -7,6 +7,7 @@ Outcome alphabet (as in models/SolveT.tla) and its concretisation variants:
     conv   0: A += .25, B -= .25       1: no move (from a non-finite state: fresh values within tol of 0)   2: A -= .25 only   3: A += .25 via a rebinding list assignment
     moved  0: far (A = 10000 n + 1, B = -(10000 n + 1))   1: B += tol exactly (strict <, last variable only)
            2: A -= tol exactly (absolute value, first variable only)   3: only B far   4: A -= 1.0 only   5: B far via a rebinding list assignment
+           6: both far AND huge (about 1e308 each: finite values whose sum is not)
     nanw   0: A = 1/0 (np.float64, RuntimeWarning)   1: B = log(0)   2: A = 0/0
            3: a guarded helper warns with UserWarning, then A = nan   4: ... with a DeprecationWarning subclass, then B = inf
     nans   0: B = nan   1: A = +inf   2: B = -inf      (stored silently)
@@ -24,7 +25,7 @@ import fsic
 
 TOL = 0.5
 
-VARIANTS = {'conv': 4, 'moved': 6, 'nanw': 5, 'nans': 3, 'exc': 2}
+VARIANTS = {'conv': 4, 'moved': 7, 'nanw': 5, 'nans': 3, 'exc': 2}
 
 
 def _real(x):
@@ -80,7 +81,9 @@ class ScriptedBase:
 
     def solve_t_before(self, t, **kw):
         self.__dict__['_sc_log'].append(('pre', self._pos(t), kw.get('iteration')))
-        if self.__dict__.get('_sc_hooks_write'):
+        if self.__dict__.get('_sc_hooks_write') == 'check':
+            self._A[t] += 1000.0  # a pre-solution calculation that moves a CHECK variable (finite): pass 1 is judged against the state on entry
+        elif self.__dict__.get('_sc_hooks_write'):
             self._C[t] += 1000.0  # a pre-solution calculation on a non-check endogenous variable
         if self.__dict__['_sc_pre_exc'] == 'nan-write':
             self._A[t] = float('nan')  # e.g. an observed series with a gap is loaded into a check variable: silently, no warning
@@ -135,13 +138,17 @@ class ScriptedBase:
                 self._A[t] = 10000.0 * s + 1.0
                 self._B[t] = -10000.0 * s - 1.0
             elif v == 1:
-                self._B[t] += TOL
+                self._B[t] = (self._B[t] if abs(self._B[t]) < 1e300 else 0.0) + TOL   # (from a huge value a step of tol would vanish in rounding)
             elif v == 2:
-                self._A[t] -= TOL
+                self._A[t] = (self._A[t] if abs(self._A[t]) < 1e300 else 0.0) - TOL
             elif v == 3:
                 self._B[t] = -20000.0 * s - 7.0
             elif v == 4:
-                self._A[t] -= 1.0
+                self._A[t] = (self._A[t] if abs(self._A[t]) < 1e300 else 0.0) - 1.0
+            elif v == 6:
+                # finite, far from anything before, and so large that the SUM of the check values overflows although each is finite
+                self._A[t] = 1.2e308 - 1e292 * s
+                self._B[t] = 1.1e308 - 1e292 * s
             elif v == 5:
                 # whole-series assignment from a list REBINDS the array of a check variable during the solve
                 vals = self._B.tolist()
